@@ -32,7 +32,9 @@ RULE = (
     "gc.collect, flush, commit, expire, expire_all, delete, self-link} on a table with one row; the "
     "modify / drop-references / collect / flush family (load-or-new x set x every arrangement of drop, "
     "gc.collect, link-cycle, second reference x flush|commit|get-autoflush, then re-get); two objects modified "
-    "together with set/drop/gc.collect in every order; (quick: seeded samples of 220 + 200 of these two families) "
+    "together with set/drop/gc.collect in every order; in-place changes (flag_modified, as sqlalchemy.ext.mutable does) "
+    "as the only pending change and changes to two attributes of which one is expired again (partial expire), then "
+    "drop / gc.collect / flush (350 sampled); (quick: seeded samples of 220 + 200 of the first two families) "
     "plus random histories of "
     "<= 14 operations over <= 3 slots and <= 4 rows. non-trivial = an object is modified (set/new) and a "
     "slot is dropped afterwards before a flush/commit/get"
@@ -50,7 +52,9 @@ TRUSTED = [
 ASSUMPTIONS = [
     "one mapped class without relationships; references between objects are plain (unmapped) attributes",
     "one Session (autoflush and expire_on_commit at their defaults), no rollback / expunge / merge / close, "
-    "no external writer, primary keys of new objects are fresh",
+    "no external writer, primary keys of new objects are fresh; in-place changes are made the way ext.mutable "
+    "registers them (value replaced in state.dict + attributes.flag_modified); partial refresh (refresh(obj, [attr])) "
+    "is not in the alphabet (partial expire is)",
 ]
 ANCHORS = [
     ("lib/sqlalchemy/orm/state.py", "InstanceState.__init__"),
@@ -58,6 +62,9 @@ ANCHORS = [
     ("lib/sqlalchemy/orm/state.py", "InstanceState._modified_event"),
     ("lib/sqlalchemy/orm/state.py", "InstanceState._commit_all_states"),
     ("lib/sqlalchemy/orm/state.py", "InstanceState._expire"),
+    ("lib/sqlalchemy/orm/state.py", "InstanceState._expire_attributes"),
+    ("lib/sqlalchemy/orm/attributes.py", "flag_modified"),
+    ("lib/sqlalchemy/orm/session.py", "Session._expire_state"),
     ("lib/sqlalchemy/orm/state.py", "InstanceState._detach_states"),
     ("lib/sqlalchemy/orm/identity.py", "IdentityMap._manage_incoming_state"),
     ("lib/sqlalchemy/orm/identity.py", "IdentityMap._manage_removed_state"),
